@@ -6,6 +6,15 @@ HERE = os.path.dirname(os.path.dirname(os.path.abspath(__file__)))
 
 # id -> (technique, level text, level note, design ref)
 CLAIMED = {
+ "C01": ("layout agreement (linear-term comparison), ownership/who-writes, closed-world guard sets, typestate (drain-before-block), loop-exit and phi-web analysis, reader/writer field partition over go/ssa",
+         "Decides structural necessary conditions of exact delivery: writer/reader packet layout agree; only the authenticated, length-validated payload slice reaches the application buffer and nothing else gates it; encoder/decoder frame lock-step and all-or-nothing field reads; Write chops b without gaps and flushes all frames; handshake remainder kept and decoded before blocking; loops exit only with data or fatal error; short-read discipline incl. bytes returned with an error; Read and Write paths share no unsynchronised mutable state. Equality of delivered bytes under all chunkings/interleavings is not decided.",
+         "go/types+go/ssa faithful; bytes.Buffer/encoding/binary behave as documented", "DESIGN.md section 4, C01"),
+ "C05": ("must-pass-through, writer ownership, sticky-flag and control-equivalence rules, phi-web error analysis, relational bounds, key-range resolution over go/ssa",
+         "Decides that Decode succeeds only after secretbox.Open ok with the invalid-length flag clear, opens with its own nonce/key (single initialiser), advances the sequence only on success, stores only in-range lengths, that Read never loses a fatal error, that only authenticated payload surfaces, that all parser bounds hold, and that the two directions use different key blocks. Cryptographic strength is not decided.",
+         "go/types+go/ssa faithful; secretbox.Open is an authenticated open; library contracts in checker/contracts.go", "DESIGN.md section 4, C05"),
+ "C06": ("constants from types.Info and SSA use sites vs spec tables; E7 expression-tree reconstruction of handshake/transcript/KDF layouts compared with spec terms; key-range resolution; structural shape rules over go/ssa",
+         "Decides conformance of every constant, offset, order, label, endianness and direction of the obfs4 wire format against tables transcribed from the protocol spec (76 obligations). Actual interoperation and the primitives are not decided.",
+         "go/types+go/ssa faithful; checker/spec/obfs4_wire.json transcribes the deployed format", "DESIGN.md section 4, C06"),
  "C10": ("relational bounds analysis (dominating linear facts + contracts + callee summaries, Fourier-Motzkin entailment) + deadline typestate + loop/back-edge rules + channel-closure ownership over go/ssa",
          "Decides, for all functions reachable from the network entry points: every slice/index/make/library-precondition obligation holds and every explicit panic is unreachable on every path (named exclusions listed in the evidence); handshake deadlines are armed before all I/O, not in a loop, and removed on every success path; handshake read loops are size-bounded and never spin; read faults are returned as fatal errors; closable channels are closed once and sends are protected; raw Read buffers are only used as buf[:n]. One known finding (paranoid-IAT zero-length panic). Liveness in general and data-phase memory bounds are not decided.",
          "go/types+go/ssa faithful; the library contract table in checker/contracts.go; field-interval invariants assume initialised-before-use", "DESIGN.md section 4, C10; section 2.9"),
